@@ -26,6 +26,8 @@ import (
 	"example.com/scion-time/core/timebase"
 	"example.com/scion-time/net/csptp"
 	"example.com/scion-time/net/udp"
+
+	"golang.org/x/sys/unix"
 )
 
 // ------------------------------------------------------------------ clock
@@ -124,6 +126,35 @@ func listenTS(a netip.Addr, port int) (*tsConn, error) {
 		return nil, fmt.Errorf("timestamping: %w", err)
 	}
 	return &tsConn{c: c, oob: make([]byte, udp.TimestampLen())}, nil
+}
+
+// listenRx: receive timestamps only (the endpoint sockets are read by a goroutine of
+// their own; reading transmit timestamps from the error queue would wait for it)
+func listenRx(a netip.Addr, port int) (*tsConn, error) {
+	c, err := net.ListenUDP("udp", net.UDPAddrFromAddrPort(netip.AddrPortFrom(a, uint16(port))))
+	if err != nil {
+		return nil, err
+	}
+	sc, err := c.SyscallConn()
+	if err != nil {
+		return nil, err
+	}
+	var serr error
+	err = sc.Control(func(fd uintptr) {
+		serr = unix.SetsockoptInt(int(fd), unix.SOL_SOCKET, unix.SO_TIMESTAMPING_NEW,
+			unix.SOF_TIMESTAMPING_SOFTWARE|unix.SOF_TIMESTAMPING_RX_SOFTWARE)
+	})
+	if err != nil || serr != nil {
+		return nil, fmt.Errorf("timestamping: %v %v", err, serr)
+	}
+	return &tsConn{c: c, oob: make([]byte, udp.TimestampLen())}, nil
+}
+
+// deliver sends; the time just before the send bounds the receiver's rx timestamp from below
+func (t *tsConn) deliver(b []byte, dst netip.AddrPort) (time.Time, error) {
+	at := time.Now().UTC()
+	_, err := t.c.WriteToUDPAddrPort(b, dst)
+	return at, err
 }
 
 func (t *tsConn) port() uint16 { return t.c.LocalAddr().(*net.UDPAddr).AddrPort().Port() }
@@ -230,13 +261,13 @@ type Endpoint struct {
 func NewEndpoint(a netip.Addr) (*Endpoint, error) {
 	e := &Endpoint{A: a, Arrivals: make(chan Arrival, 64), stop: make(chan struct{})}
 	var err error
-	if e.E, err = listenTS(a, csptp.EventPortIP); err != nil {
+	if e.E, err = listenRx(a, csptp.EventPortIP); err != nil {
 		return nil, err
 	}
-	if e.G, err = listenTS(a, csptp.GeneralPortIP); err != nil {
+	if e.G, err = listenRx(a, csptp.GeneralPortIP); err != nil {
 		return nil, err
 	}
-	if e.X, err = listenTS(addrOther, csptp.GeneralPortIP); err != nil {
+	if e.X, err = listenRx(addrOther, csptp.GeneralPortIP); err != nil {
 		return nil, err
 	}
 	for _, pc := range []struct {
